@@ -21,7 +21,7 @@ from .runner import (EXIT_HARNESS, EXIT_OK, EXIT_VIOLATION, WORKERS, HarnessFail
                      base_seed, fresh_interpreter, say, write_evidence, write_replay)
 
 TIERS = {
-    "quick": {"gen": 70, "refused": 16, "cli": 10, "dec_small": 18, "dec_big": 12, "dec_bad": 8,
+    "quick": {"gen": 80, "refused": 16, "cli": 14, "dec_small": 18, "dec_big": 12, "dec_bad": 8,
               "examples": "once", "reps": 8, "hist_len": 25, "families": 1},
     "thorough": {"gen": 900, "refused": 120, "cli": 80, "dec_small": 150, "dec_big": 24,
                  "dec_bad": 60, "examples": "many", "reps": 40, "hist_len": 30, "families": 6},
@@ -98,8 +98,11 @@ def build_pool(seed, tier):
         if r.random() < 0.5:
             flags += ["-s", str(r.choice((32, 80, 255)))]
         config = None
-        if r.random() < 0.4:
-            config = "string_configs:\n  strname_to_size:\n    A$: 10\n    D$(): 64\n"
+        if r.random() < 0.5:
+            # always the same path, several contents
+            config = "string_configs:\n  strname_to_size:\n    A$: %d\n    D$(): %d\n    N$: %d\n" % (
+                r.choice((10, 64, 100)), r.choice((64, 80)), r.choice((5, 200)))
+            text = '5 DIM A$,N$,D$(5)\n' + text
         name = r.choice(("prog.bas", "a-b.bas", "x.bas", "Game_1.bas", "noext"))
         add({"t": "cli", "text": text, "flags": flags, "name": name, "config": config},
             "cli%d" % i, "cli" + "".join(sorted(f for f in flags if f.startswith("-") and len(f) == 2)))
@@ -275,6 +278,13 @@ def build_histories(seed, pool, tier):
         for o in orders:
             hist.append({"proc": len(hist), "hashseed": hs.randrange(1, 2 ** 32 - 1),
                          "ops": o[:150]})
+    # doubles: every op twice in a row ("repeated calls in one process"), in particular the
+    # refused ones - a memo of the last call must not answer the second
+    order = [i for i, op in enumerate(pool) if not (op["t"] == "decode" and len(op["data"]) > 20000)]
+    r.shuffle(order)
+    for a in range(0, len(order), 20):
+        ops = [i for i in order[a:a + 20] for _ in (0, 1)]
+        hist.append({"proc": len(hist), "hashseed": hs.randrange(1, 2 ** 32 - 1), "ops": ops})
     # relatives: the same program text under different option sets (and the same options on
     # different texts) back to back, in both orders - where a memo keyed by the text alone,
     # or by the options alone, would answer from the wrong entry
